@@ -26,27 +26,38 @@ SEARCHES = {
     "dfs_recursive": (depthfirst.dfs_recursive, depthfirst.dft_recursive),
     "dfs_iterative": (depthfirst.dfs_iterative, depthfirst.dft_iterative),
 }
-STORED = {"A": 1000, "B": (1, 2)}
+# stored label values: a large int (never identical to a freshly built equal one), a tuple, the falsy
+# value 0 and None (an attribute that is present with value None is not the same as an absent one)
+STORED = {"A": 1000, "B": (1, 2), "Z": 0, "N": None}
 
 
 def fresh(name):
-    """a freshly built object equal but not identical to the stored label"""
+    """the sought value: for A and B a freshly built object equal but not identical to the stored one"""
     if name == "A":
         return int("1000")
     if name == "B":
         return tuple([1, 2])
+    if name == "Z":
+        return 0
+    if name == "N":
+        return None
     return 7            # a value no vertex carries
 
 
 SPACES = {
     "quick": [
-        (dict(nv=3, maxl=2, classes=("D", "U")), dict(variants=("Vertex", "FalsyBool", "FalsyLen"), unis="all-subsets")),
-        (dict(nv=3, maxl=3, minl=3, classes=("D", "U")), dict(variants=("Vertex", "FalsyBool"), unis="all-minus-one")),
+        (dict(nv=3, maxl=2, classes=("D", "U")),
+         dict(variants=("Vertex", "FalsyBool", "FalsyLen"), unis="all-subsets", labels="-AZN")),
+        (dict(nv=3, maxl=3, minl=3, classes=("D", "U")),
+         dict(variants=("Vertex", "FalsyBool"), unis="all-minus-one", labels="-AN")),
     ],
     "thorough": [
-        (dict(nv=3, maxl=3, classes=("D", "U", "Ds")), dict(variants=("Vertex", "FalsyBool", "FalsyLen"), unis="all-subsets")),
-        (dict(nv=4, maxl=3, minl=3, classes=("D", "U")), dict(variants=("Vertex", "FalsyBool"), unis="all-minus-one")),
-        (dict(nv=3, maxl=2, classes=("D", "U"), mutations=True), dict(variants=("Vertex", "FalsyLen"), unis="all-subsets")),
+        (dict(nv=3, maxl=3, classes=("D", "U", "Ds")),
+         dict(variants=("Vertex", "FalsyBool", "FalsyLen"), unis="all-subsets", labels="-AZN")),
+        (dict(nv=4, maxl=3, minl=3, classes=("D", "U")),
+         dict(variants=("Vertex", "FalsyBool"), unis="all-minus-one", labels="-AN")),
+        (dict(nv=3, maxl=2, classes=("D", "U"), mutations=True),
+         dict(variants=("Vertex", "FalsyLen"), unis="all-subsets", labels="-ABZN")),
     ],
 }
 _cfg = None
@@ -119,7 +130,8 @@ def per_state(spec, seq, w0):
     evals = nontriv = 0
     viols = []
     sq = [list(o) for o in seq]
-    labellings = list(itertools.product("-AB", repeat=nv))
+    labellings = list(itertools.product(cfg["labels"], repeat=nv))
+    soughts = [("k", x) for x in cfg["labels"] if x != "-"] + [("k", "absent"), ("nosuch", "A"), ("nosuch", "N")]
     for vname in cfg["variants"]:
         spec2 = dict(spec, vclasses=[VCLASSES[vname]] * nv)
         w, _ = engine_g.build(spec2, seq, validate=False)
@@ -141,7 +153,7 @@ def per_state(spec, seq, w0):
                 for s in sorted(members):
                     for sname in SEARCHES:
                         tl = trav[(uname, s, sname)]
-                        for attr, sought in (("k", "A"), ("k", "B"), ("k", "absent"), ("nosuch", "A")):
+                        for attr, sought in soughts:
                             evals += 1
                             nontriv += (sought in present and attr == "k")
                             bad = judge(w, sname, uni, members, s, attr, sought, tl)
@@ -190,10 +202,11 @@ def run(tier, seed, log):
         results.append((res, sp))
     rep.coverage = engine_g.merge_coverage(
         results,
-        "every ordered multigraph of each space x vertex class variants x all 3^n labellings of attribute k "
-        "over {absent, 1000, (1,2)} x every start x universes x {sought 1000, (1,2) as fresh equal objects, an "
-        "absent value, an absent attribute name} x 3 searches; expected = first match in the list returned by "
-        "the real corresponding traversal; non-trivial = the sought value is carried by some vertex")
+        "every ordered multigraph of each space x vertex class variants x all labellings of attribute k over the "
+        "space's label domain (absent, 1000, (1,2), 0, None) x every start x universes x every stored value as "
+        "sought value (1000 and (1,2) as freshly built equal objects; 0; None), a value no vertex carries, and an "
+        "attribute name no vertex has (sought 1000 and None) x 3 searches; expected = first match in the list "
+        "returned by the real corresponding traversal; non-trivial = the sought value is carried by some vertex")
     rep.assumptions = ["caching off; edge classes of the two edge families only (default unknown handling "
                        "raises otherwise and the statement is silent there)",
                        "the traversal lists are the real bft/dft_* results (C06/C07 cover them)"]
